@@ -6,7 +6,7 @@ PROPERTY = "C03"
 LEVEL = "proof"
 BOUNDED = [{"function": "whole Noise session against the real noise library as responder", "engine": "native enumeration", "bound": "hello++handshake++3 data frames, all segmentations into <= 3 chunks on a stride-3 grid (stride 1 in the thorough tier), names present/absent"}]
 ASSUMPTIONS = ["A-CRYPTO: ChaCha20-Poly1305 and the noiseprotocol state machine are idealised (assumed contracts); conformance of those libraries is not verified",
-               "A-PY, A-TYPES, A-SPECTERM", "A-LOOP: an exception escaping data_received makes the transport call connection_lost(exc)"]
+               "A-PY, A-TYPES, A-SPECTERM", "component contract (assume/guarantee): the helper sees the connection only through process_packet (records the packet; may call the helper's close(); may raise) and report_fatal_error (records the error; may call close()) - the behaviour proved for APIConnection under C08/C09/C12", "A-LOOP: an exception escaping data_received makes the transport call connection_lost(exc)"]
 
 
 def targets(eng):
